@@ -290,7 +290,8 @@ BrScan(p, j, first, fn) ==
        ELSE LET rest == BrScan(p, m.next, FALSE, fn) IN
             IF ~rest.ok THEN Pre(rest, [t |-> "ch", c |-> m.c])
             ELSE [rest EXCEPT !.items = <<[t |-> "ch", c |-> m.c]>> \o @,
-                              !.bad = IF c = "[" /\ At(p, j + 1) = ":" THEN @ \cup {"unterminated-class"} ELSE @]
+                              !.bad = IF c = "[" /\ At(p, j + 1) \in {":", ".", "="}
+                                      THEN @ \cup {"unterminated-class"} ELSE @]
 
 \* Bracket(p, i): p[i] = "[".  [ok, dead, next, neg, items, bad]
 Bracket(p, i, fn) ==
